@@ -106,3 +106,116 @@ func XY(cs []C) []P2 {
 	}
 	return out
 }
+
+// OnSegment reports whether p lies on the closed segment ab, exactly.
+func OnSegment(p, a, b P2) bool {
+	if Orient(a, b, p) != 0 {
+		return false
+	}
+	minx, maxx := a.X, b.X
+	if minx > maxx {
+		minx, maxx = maxx, minx
+	}
+	miny, maxy := a.Y, b.Y
+	if miny > maxy {
+		miny, maxy = maxy, miny
+	}
+	return minx <= p.X && p.X <= maxx && miny <= p.Y && p.Y <= maxy
+}
+
+// Locate classifies p against the closed ring (first point == last point) by the even-odd
+// rule in exact arithmetic: 1 = boundary (on a segment), 0 = interior, 2 = exterior.
+// It shoots a VERTICAL ray upwards with its own half-open convention in x, independent of
+// the horizontal-ray convention of the implementation.
+func Locate(p P2, ring []P2) int {
+	for i := 1; i < len(ring); i++ {
+		if OnSegment(p, ring[i-1], ring[i]) {
+			return 1
+		}
+	}
+	crossings := 0
+	for i := 1; i < len(ring); i++ {
+		a, b := ring[i-1], ring[i]
+		if a.X == b.X {
+			continue // vertical edges never cross a vertical ray transversally
+		}
+		if a.X > b.X {
+			a, b = b, a
+		}
+		// half-open in x: a.X <= p.X < b.X
+		if !(a.X <= p.X && p.X < b.X) {
+			continue
+		}
+		// the edge passes above p iff p is to the right of a->b (clockwise), a being the left end
+		if Orient(a, b, p) < 0 {
+			crossings++
+		}
+	}
+	if crossings%2 == 1 {
+		return 0
+	}
+	return 2
+}
+
+// SegInter is the exact intersection of two non-degenerate segments.
+type SegInter struct {
+	Kind int // 0 none, 1 single point, 2 collinear overlap of positive length
+	// Endpoint: for Kind 1, true when the point is an endpoint of one of the segments (then P is that endpoint, exact).
+	Endpoint bool
+	P, Q     P2       // Kind 1: P (if Endpoint); Kind 2: overlap endpoints P<Q lexicographically
+	PX, PY   *big.Rat // Kind 1: exact point
+}
+
+func lexLess(a, b P2) bool { return a.X < b.X || (a.X == b.X && a.Y < b.Y) }
+
+// SegSeg classifies and locates the intersection of segments a1a2 and b1b2 exactly.
+func SegSeg(a1, a2, b1, b2 P2) SegInter {
+	o1, o2 := Orient(a1, a2, b1), Orient(a1, a2, b2)
+	o3, o4 := Orient(b1, b2, a1), Orient(b1, b2, a2)
+	if o1 == 0 && o2 == 0 && o3 == 0 && o4 == 0 {
+		loA, hiA := a1, a2
+		if lexLess(hiA, loA) {
+			loA, hiA = hiA, loA
+		}
+		loB, hiB := b1, b2
+		if lexLess(hiB, loB) {
+			loB, hiB = hiB, loB
+		}
+		lo, hi := loA, hiA
+		if lexLess(lo, loB) {
+			lo = loB
+		}
+		if lexLess(hiB, hi) {
+			hi = hiB
+		}
+		switch {
+		case lexLess(hi, lo):
+			return SegInter{Kind: 0}
+		case lo == hi:
+			return SegInter{Kind: 1, Endpoint: true, P: lo, PX: R(lo.X), PY: R(lo.Y)}
+		}
+		return SegInter{Kind: 2, P: lo, Q: hi}
+	}
+	if o1*o2 > 0 || o3*o4 > 0 {
+		return SegInter{Kind: 0}
+	}
+	ep := func(p P2) SegInter { return SegInter{Kind: 1, Endpoint: true, P: p, PX: R(p.X), PY: R(p.Y)} }
+	switch {
+	case o1 == 0:
+		return ep(b1)
+	case o2 == 0:
+		return ep(b2)
+	case o3 == 0:
+		return ep(a1)
+	case o4 == 0:
+		return ep(a2)
+	}
+	// proper crossing: P = a1 + t (a2-a1), t = cross(b1-a1, b2-b1) / cross(a2-a1, b2-b1)
+	dax, day := rsub(R(a2.X), R(a1.X)), rsub(R(a2.Y), R(a1.Y))
+	dbx, dby := rsub(R(b2.X), R(b1.X)), rsub(R(b2.Y), R(b1.Y))
+	ex, ey := rsub(R(b1.X), R(a1.X)), rsub(R(b1.Y), R(a1.Y))
+	num := rsub(rmul(ex, dby), rmul(ey, dbx))
+	den := rsub(rmul(dax, dby), rmul(day, dbx))
+	t := new(big.Rat).Quo(num, den)
+	return SegInter{Kind: 1, PX: radd(R(a1.X), rmul(t, dax)), PY: radd(R(a1.Y), rmul(t, day))}
+}
